@@ -262,12 +262,12 @@ def eexc_value(v):
     return [0] + list(v)
 
 
-def charwise(url, encoding):
+def charwise(url, encoding, extra=''):
     """per-character table of a stateless codec; None if the codec is not char-wise on this text"""
     tab = []
     whole = []
     failed = False
-    for ch in sorted(set(url)):
+    for ch in sorted(set(url) | set(extra)):
         if ord(ch) < 128:
             try:
                 if ch.encode(encoding) != bytes([ord(ch)]):
@@ -348,7 +348,8 @@ def run_real(wu, case, op='parse'):
     encname = {'utf-8': 'utf8', 'iso8859-1': 'latin1', 'ascii': 'ascii'}.get(codecs.lookup(case.encoding).name, 'table')
     enct = []
     if encname == 'table':
-        enct = charwise(case.url, case.encoding)
+        # the lower-cased scheme candidate can re-enter the text ('.' in scheme): its characters too
+        enct = charwise(case.url, case.encoding, py_strip_prefix(case.url).lower())
         if enct is None:
             case.skip = True
             enct = []
